@@ -152,6 +152,13 @@ def thread_scenarios(tier):
     S['T11_duplicate_subbuild_inside_a_parent_record'] = dict(
         prep=[sb('outer', [sb('s')])],
         threads=[[dict(sb('parent', args=(9,)), par=[[sb('outer', [sb('s')])], [sb('s')]])]])
+    # the first call is still writing its output while the other thread looks at a cached subtree that
+    # contains the same path: the record of the first call must carry the result of the finished file
+    for cmp in ('HASH', 'METADATA'):
+        S['T12_%s_lookup_while_the_first_call_writes' % cmp] = dict(
+            prep=[sb('A', [bf('d/a', cmp=cmp, args=[1])])],
+            threads=[[bf('d/a', 'w2', cmp=cmp, args=[2])], [sb('A', [bf('d/a', cmp=cmp, args=[1])])]],
+            after=[sb('reader', [{'o': 'q', 'kind': 'readh' if cmp == 'HASH' else 'read', 'p': 'd/a', 'cmp': cmp}], args=(7,))])
     if tier != 'quick':
         S['T9_three_threads_same_subbuild'] = dict(threads=[[sb('s')], [sb('s')], [sb('s')]])
     return S
@@ -172,7 +179,7 @@ def acceptable(o, seqs):
     res = list(first.get('ops', {}).values())
     if any(r[0] == 'exc' and r[1] not in ('RuntimeError',) for r in res):
         return False
-    if o.get('cache_duplicates'):
+    if o.get('cache_duplicates') or o.get('cache_comparison_mismatches'):
         return False        # a key is recorded twice in the committed cache file (also below a rejected record)
     if not any(r[0] == 'ok' for r in res):
         return False
